@@ -374,18 +374,10 @@ fn main() {
                 state.current_stack()
             ));
 
-            res.push_str(&*format!(
-                "
-    last = Option::{};",
-                match state.get_latest_loc() {
-                    Some(v) => format!("Some({})", v),
-                    None => String::from("None"),
-                }
-            ));
-
             let mut point = state.get_all_point();
             point.sort_by(|a, b| a.1.partial_cmp(&b.1).unwrap());
             let mut idx = 0;
+            let mut block_of = Vec::new();
 
             for (i, c) in state.get_all_code().iter().enumerate() {
                 match c.get_area() {
@@ -403,13 +395,24 @@ fn main() {
                             point[idx].1 = codes.len() - 1;
                             idx += 1;
                         }
+                        block_of.push(codes.len() - 1);
                         codes.push(Vec::new());
                     }
                     Area::Nil => {
                         codes.last_mut().unwrap().push(c.clone());
+                        block_of.push(codes.len() - 1);
                     }
                 }
             }
+
+            res.push_str(&*format!(
+                "
+    last = Option::{};",
+                match state.get_latest_loc() {
+                    Some(v) => format!("Some({})", block_of[v]),
+                    None => String::from("None"),
+                }
+            ));
 
             if opt {
                 for (a, b) in point {
